@@ -1,7 +1,10 @@
 (* C10 -- Thread-safe allocation mode: schedule-independent accounting, no race, no hang.
-   Only statements; every proof is `exact <lemma>`. *)
+   Only statements; every proof is `exact <lemma>`.
+   reached s sched = the state after the micro-steps named by the (arbitrary) list of thread ids `sched`, from the start of
+   scenario s, with the wiring table regenerated from the source (gen/Gen_C10.v) and the repaired reporter;
+   complete = run the lowest runnable thread until nothing can move. *)
 From Coq Require Import NArith Arith Bool List.
-From CppUVerif Require Import C10_Wiring gen.Gen_C10 C10_Model C10_Proofs.
+From CppUVerif Require Import C10_Wiring gen.Gen_C10 C10_Model C10_Steps C10_Lock C10_Data C10_Sched C10_Proofs C10_Main C10_Theorems.
 Import ListNotations.
 
 (* over the table regenerated from MemoryLeakWarningPlugin.cpp: each of the eleven function pointers set by
@@ -10,3 +13,98 @@ Import ListNotations.
 Theorem C10_all_entry_points_locked : wiring_ok ts_table = true.
 Proof. exact ts_wiring_ok. Qed.
 Print Assumptions C10_all_entry_points_locked.
+
+(* the default overloads perform the same eleven actions without a lock, "off" goes straight to the platform, and every
+   global operator new/delete overload and C entry point calls the function pointer its signature stands for *)
+Theorem C10_entry_points_dispatch :
+  forallb (entry_unlocked_same default_table) all_entries = true
+  /\ forallb (entry_plain off_table) all_entries = true
+  /\ forallb (fun p => entry_eqb (fst p) (snd p)) dispatch_table = true
+  /\ forallb (fun e => existsb (fun p => entry_eqb (fst p) e) dispatch_table) all_entries = true.
+Proof. exact (conj default_wiring_same_actions (conj off_wiring_plain dispatch_ok)). Qed.
+Print Assumptions C10_entry_points_dispatch.
+
+(* the model's run of every valid scenario satisfies the property's oracle *)
+Theorem C10_run_meets_spec : forall s, valid s = true -> spec s (run s) = true.
+Proof. exact run_meets_spec. Qed.
+Print Assumptions C10_run_meets_spec.
+Example C10_run_meets_spec_sat : valid ex_scenario = true /\ o_verdicts (run ex_scenario) = [true; false] /\ length (o_entries (run ex_scenario)) = 3.
+Proof. exact (conj ex_valid (conj (proj1 (proj2 ex_run)) (proj2 (proj2 (proj2 ex_run))))). Qed.
+
+(* in every state of every execution at most one thread is between acquire and release, and what a thread has read of
+   the shared state is still the shared state when it writes (critical sections are atomic with respect to each other) *)
+Theorem C10_mutex : forall s sched,
+  (forall t1 t2 th1 th2,
+     nth_error (st_threads (reached s sched)) t1 = Some th1 -> nth_error (st_threads (reached s sched)) t2 = Some th2 ->
+     in_cs (th_phase th1) = true -> in_cs (th_phase th2) = true -> t1 = t2)
+  /\ (forall t th snap, nth_error (st_threads (reached s sched)) t = Some th -> th_phase th = PRead snap ->
+                        snap = st_sh (reached s sched)).
+Proof. exact (fun s sched => conj (mutex s sched) (read_is_current s sched)). Qed.
+Print Assumptions C10_mutex.
+Example C10_mutex_sat : exists sched t th, nth_error (st_threads (reached ex_scenario sched)) t = Some th /\ in_cs (th_phase th) = true.
+Proof. exact ex_in_cs. Qed.
+
+(* the shared state after any execution is the result of applying its critical sections (and the output's allocations)
+   one after another, in the order in which they wrote *)
+Theorem C10_serialisable : forall s sched,
+  st_sh (reached s sched) = fold_left (apply_event (the_cfg s)) (trace (the_cfg s) sched (init_state s)) sh0.
+Proof. exact serialisable. Qed.
+Print Assumptions C10_serialisable.
+
+(* for ALL schedules: completed, the observation satisfies the oracle (outstanding set = union of the per-thread sequential
+   results, a misuse fails exactly its test, allocation numbers handed out once each, nothing foreign outstanding) *)
+Theorem C10_schedule_independent : forall s sched, valid s = true ->
+  spec s (observe s (complete (the_cfg s) (reached s sched))) = true.
+Proof. exact schedule_independent. Qed.
+Print Assumptions C10_schedule_independent.
+
+(* so any two schedules of one scenario agree on verdicts, number of allocations and outstanding set *)
+Theorem C10_two_schedules_agree : forall s sched1 sched2, valid s = true ->
+  let o1 := observe s (complete (the_cfg s) (reached s sched1)) in
+  let o2 := observe s (complete (the_cfg s) (reached s sched2)) in
+  o_verdicts o1 = o_verdicts o2 /\ o_adv o1 = o_adv o2 /\ incl (o_entries o1) (o_entries o2) /\ incl (o_entries o2) (o_entries o1).
+Proof. exact two_schedules. Qed.
+Print Assumptions C10_two_schedules_agree.
+
+(* in every reachable state the outstanding records carry distinct sequence numbers in 1..counter-1 and the counter is
+   1 + (allocations made by the scripts) + (allocations made by the output) *)
+Theorem C10_sequence_numbers : forall s sched, valid s = true ->
+  let st := reached s sched in
+  NoDup (map t_seq (sh_table (st_sh st)))
+  /\ (forall x, In x (sh_table (st_sh st)) -> (1 <= t_seq x < sh_seq (st_sh st))%N)
+  /\ (sh_seq (st_sh st) = 1 + st_outallocs st + sum_allocs (st_threads st))%N.
+Proof. exact sequence_numbers. Qed.
+Print Assumptions C10_sequence_numbers.
+
+(* no reachable deadlock: while a thread has operations left some thread can move, and every execution prefix can be
+   completed (lowest runnable thread first) so that every script ends *)
+Theorem C10_no_deadlock : forall s sched,
+  (all_done (reached s sched) = false ->
+   exists t, enabled (the_cfg s) (reached s sched) t = true /\ step (the_cfg s) t (reached s sched) <> reached s sched)
+  /\ all_done (complete (the_cfg s) (reached s sched)) = true.
+Proof. exact (fun s sched => conj (no_deadlock s sched) (completes s sched)). Qed.
+Print Assumptions C10_no_deadlock.
+Example C10_no_deadlock_sat : all_done (reached ex_scenario [0; 1; 0]) = false.
+Proof. exact ex_not_done. Qed.
+
+(* the lock is held only by a thread inside a wrapper: a thread that is between operations, is printing a failure, has
+   left its test after a misuse report or has finished never holds it -- in every state of every execution *)
+Theorem C10_lock_released_after_misuse : forall s sched,
+  (forall t th, nth_error (st_threads (reached s sched)) t = Some th -> in_cs (th_phase th) = false ->
+                st_lock (reached s sched) <> LHeld t)
+  /\ ((forall t th, nth_error (st_threads (reached s sched)) t = Some th -> in_cs (th_phase th) = false) ->
+      st_lock (reached s sched) = LFree).
+Proof. exact (fun s sched => conj (lock_released s sched) (lock_free_when_all_outside s sched)). Qed.
+Print Assumptions C10_lock_released_after_misuse.
+
+(* the reporter before the repair (D17, fixed in /repo): the claim "every valid scenario runs to its end" is false of it --
+   overrun a new[] block, delete[] it, the next allocation blocks for ever *)
+Theorem C10_lock_released_after_misuse_old_refuted : ~ (forall s, valid s = true -> o_done (run_old s) = true).
+Proof. exact lock_released_old_refuted. Qed.
+Print Assumptions C10_lock_released_after_misuse_old_refuted.
+
+(* what the lock is for: the same wiring with the lock taken out of a single wrapper no longer satisfies the oracle
+   (two threads calling malloc: one record and one sequence number are lost) *)
+Theorem C10_lock_needed : ~ (forall e s, valid s = true -> spec s (run_with (unlock_one e ts_table) true s) = true).
+Proof. exact lock_needed. Qed.
+Print Assumptions C10_lock_needed.
